@@ -223,6 +223,23 @@ def generate(rng, tier, corpus_only=False):
                 d = dy(rng)
                 cases.append("%s %d %d" % (op, d[0], d[1]))
         else:
+            if rng.random() < 0.06:
+                # construction from doubles: exact value from Python (IEEE double), incl. subnormal-free extremes
+                import struct
+                k2 = rng.random()
+                if k2 < 0.3:
+                    x = float(rng.randint(-2**53, 2**53)) * 2.0 ** rng.randint(-80, 80)
+                elif k2 < 0.6:
+                    x = rng.uniform(-1e6, 1e6)
+                elif k2 < 0.8:
+                    x = rng.choice([0.0, 1.0, -1.0, 0.5, -0.75, 0.1, 1e300, -1e-300, 2.0**-1000, 3.0 * 2.0**1000, 1.0 / 3.0])
+                else:
+                    x = struct.unpack("<d", struct.pack("<Q", rng.getrandbits(64) & 0x7fefffffffffffff | (rng.getrandbits(1) << 63)))[0]
+                    if abs(x) < 2.0**-1020:
+                        x = 1.5
+                nn, dd = x.as_integer_ratio()
+                cases.append("dfromd %s %d %d" % (x.hex(), nn, dd))
+                continue
             op = rng.choice(["dcons", "dadd", "dsub", "dmul", "dneg", "dneg", "daddint", "dmul2exp", "dmul2exp", "ddiv2exp",
                              "dpow", "dobs", "dcmp", "dcmpint", "dcmprat", "droot", "dbetween"])
             a, b, u = dy(rng), dy(rng), dy(rng)
